@@ -359,7 +359,7 @@ def explore(raw, ops, depth, tag, case0, max_states=400000):
         return res
 
     ex = histories.Explorer(make, apply, enabled, canon, invariant, max_states=max_states).run()
-    fails = [fw.fail(k, m, dict(case0, part="hist1", hist=[list(o) for o in hh])) for k, m, hh in ex.failures]
+    fails = [fw.fail(k, m, dict(case0, part="hist1", hist=[list(o) for o in hh])) for k, m, hh, *_ in ex.failures]
     return ex, fails, names
 
 
